@@ -1,4 +1,5 @@
 import SakuraVerif.Spec.Core
+import SakuraVerif.Lemmas.ExecNote
 import SakuraVerif.Gen.Consts
 import SakuraVerif.Lemmas.ExecRefine
 import SakuraVerif.Lemmas.LexPrint
@@ -146,5 +147,13 @@ example : Lp.pwfL2 demoBlocks ∧ Ex2.cwfL demoBlocks := by
   · simp [demoBlocks, Lp.pwfL2, Lp.pwf2, Lp.pwf, Ex2.lenOK, Lp.LenHeadOK, Lp.ChordLenOK, Ex2.lenText, Ex2.simple, Len.isDigit, Lx.isDigit, Len.render, Len.segs, Len.PartSyn.wf]
   · simp [demoBlocks, Ex2.cwfL, Ex2.cwf, Ex2.noteWF, Ex2.lenOK, Ex2.simple, Len.isDigit, Len.render, Len.segs, Len.PartSyn.wf, Lx.intMin]
 -- (printed: "l8 'c e '4,80 Sub{g {c r } } {[2 d : r ] 'c g ' }2 ")
+
+/-- **the time pointer advances by each note's full length regardless of gate** — on the literal model of `exec_note` (tied by the `exec`
+    stream): outside a chord the pointer after a note is the pointer before it plus the value of its length text (the default length
+    when none is written), whatever the gate rate, velocity, timing, the Random settings, and whether the note is written at once,
+    collected into a tied group or closes one -/
+theorem C03_note_advances_exec (s : Ex2.Song) (tk : Lx.Tok) (hh : s.harmonyFlag = false) (hc : s.cur < s.tracks.length) (h8 : 8 ≤ tk.data.length) :
+    (Ex2.execNote s tk).t.timepos = s.t.timepos + Len.calcLength s.tb s.t.length (Ex2.dataS tk.data 2) :=
+  Ex2.execNote_advances s tk hh hc h8
 
 end Sakura.Props.C03
